@@ -263,7 +263,7 @@ func jpegBindingSelfTest(r *core.Run, ts *traceSet) {
 	// corrupt the offset of one marker event: the acceptor must reject exactly there
 	idx := -1
 	for i, l := range ts.lines {
-		if i > 200 && bytes.Contains(l, []byte(`"e":"exifcb>"`)) {
+		if i > 200 && (bytes.Contains(l, []byte(`"e":"exifcb>"`)) || bytes.Contains(l, []byte(`"e":"exifcb\u003e"`))) {
 			idx = i
 			break
 		}
